@@ -22,6 +22,9 @@ TNext ==
     \/ (Is("Finish") /\ Finish(Ev.u))
     \/ (Is("Exit") /\ Finish(Ev.u))
     \/ (Is("Yield") /\ Yield(Ev.u))
+    \* ABT_thread_yield_to may or may not be a scheduling point (it returns at once if the target is not parked yet)
+    \/ (Is("YieldTo") /\ st[Ev.u] = "running" /\ inYield' = [inYield EXCEPT ![Ev.u] = TRUE]
+        /\ UNCHANGED <<st, arg, tok, cst, starts, mg, inpool, expect, rin>>)
     \/ (Is("Back") /\ Back(Ev.u, IF "pool" \in DOMAIN Ev THEN Ev.pool ELSE NoPool))
     \/ (Is("Suspend") /\ Suspend(Ev.u))
     \/ (Is("ResumeCall") /\ Resume(Ev.by, Ev.u))
